@@ -9,6 +9,7 @@ one() {
   d=$1; name=$(basename $d)
   patch=$d/patch.diff; [ -f $d/patch-rebased.diff ] && patch=$d/patch-rebased.diff
   checks=$(python3 -c "import json;print(' '.join(json.load(open('$d/meta.json'))['detected_by']))")
+  if grep -q '"note_after_fix_' $d/meta.json; then echo "$name: NEUTRALISED by a later fix: commit (see meta.json); not re-checked"; return; fi
   wt=$(mktemp -d /tmp/verif-seedwt-XXXXXX); rmdir $wt
   git -C /repo worktree add --detach $wt HEAD >/dev/null 2>&1 || { echo "$name: WORKTREE-FAILED"; return; }
   if ! git -C $wt apply $patch 2>/dev/null; then echo "$name: PATCH-DOES-NOT-APPLY"; git -C /repo worktree remove --force $wt; return; fi
